@@ -6,7 +6,9 @@
     sorted) represents [S]: [l = S] (order of insertion) for the unordered and the stable set,
     the comparator-sorted permutation of [S] for the sorted set.  [inv s] = [s] is duplicate
     free, and sorted if its kind is [Sorted].  The element type has an equality function that
-    decides Leibniz equality and a comparator that is a strict total order consistent with it;
+    decides Leibniz equality; every sorted set carries its own comparator ([Sorted c] uses [cmp c]),
+    each a strict total order consistent with equality, so ascending, descending and
+    magnitude-returning comparators may be mixed freely in one program;
     the oracle [draw] behind the unordered set's random iteration is arbitrary. *)
 From Coq Require Import Permutation Sorted.
 From Algo.C16 Require Import Model Spec ProofsList ProofsSet ProofsHeap ProofsProg ProofsPower ProofsPart.
@@ -15,12 +17,12 @@ Local Open Scope Z_scope.
 Section C16.
   Variable A : Type.
   Variable eqb : A -> A -> bool.
-  Variable cmp : A -> A -> Z.
+  Variable cmp : nat -> A -> A -> Z.   (* [cmp c] is the comparator of the sorted sets of kind [Sorted c] *)
   Variable draw : nat -> nat.
   Hypothesis eqb_spec : forall x y, eqb x y = true <-> x = y.
-  Hypothesis cmp_eq : forall x y, cmp x y = 0 <-> x = y.
-  Hypothesis cmp_anti : forall x y, cmp x y < 0 <-> 0 < cmp y x.
-  Hypothesis cmp_trans : forall x y z, cmp x y < 0 -> cmp y z < 0 -> cmp x z < 0.
+  Hypothesis cmp_eq : forall c x y, cmp c x y = 0 <-> x = y.
+  Hypothesis cmp_anti : forall c x y, cmp c x y < 0 <-> 0 < cmp c y x.
+  Hypothesis cmp_trans : forall c x y z, cmp c x y < 0 -> cmp c y z < 0 -> cmp c x z < 0.
 
   (** After any history of Add/Remove/RemoveAll (any arguments) each implementation represents
       the mathematical set computed by the specification; nothing panics or hangs. *)
@@ -40,7 +42,7 @@ Section C16.
       visEmpty A (mkv k l) = Nat.eqb (length S) 0 /\
       (forall t, exists r t', vall A draw (mkv k l) t = Ok (r, t') /\ Permutation r S /\
                               (k = Stable -> r = S) /\
-                              (k = Sorted -> StronglySorted (lt A cmp) r)) /\
+                              (forall c, k = Sorted c -> StronglySorted (ltc (cmp c)) r)) /\
       (forall p, vanyMatch A (mkv k l) p = existsb p S) /\
       (forall p, vallMatch A (mkv k l) p = forallb p S) /\
       (forall p, match vfirstMatch A (mkv k l) p with
@@ -49,8 +51,9 @@ Section C16.
                  end).
   Proof. intros; eapply queries_repr; eauto. Qed.
 
-  (** Equal / IsSubset / IsSuperset between any two implementations decide set equality and
-      inclusion of the represented sets. *)
+  (** Equal / IsSubset / IsSuperset between any two implementations — including two sorted sets
+      ordered by different comparators ([k1 = Sorted c1], [k2 = Sorted c2]) — decide set equality
+      and inclusion of the represented sets. *)
   Theorem C16_comparisons :
     forall k1 S1 l1 k2 S2 l2 t, repr A cmp k1 S1 l1 -> repr A cmp k2 S2 l2 ->
       (exists b, vequal A eqb cmp (mkv k1 l1) (mkv k2 l2) = Ok b /\ (b = true <-> set_equiv A S1 S2)) /\
@@ -66,21 +69,21 @@ Section C16.
     forall (s : vset A) (sets : list (vset A)) t, inv A cmp s -> Forall (inv A cmp) sets ->
       exists u t', vunion A eqb cmp draw s sets t = Ok (u, t') /\ inv A cmp u /\ vk u = vk s /\
         (forall x, In x (vm u) <-> In x (vm s) \/ exists r, In r sets /\ In x (vm r)) /\
-        (vk s <> Sorted -> exists ext, vm u = vm s ++ ext).
+        (linear (vk s) -> exists ext, vm u = vm s ++ ext).
   Proof. intros; eapply vunion_spec; eauto. Qed.
 
   Theorem C16_intersection :
     forall (s : vset A) (sets : list (vset A)), inv A cmp s -> Forall (inv A cmp) sets ->
       exists u, vintersection A eqb cmp s sets = Ok u /\ inv A cmp u /\ vk u = vk s /\
         (forall x, In x (vm u) <-> In x (vm s) /\ forall r, In r sets -> In x (vm r)) /\
-        (vk s <> Sorted -> exists f, vm u = filter f (vm s)).
+        (linear (vk s) -> exists f, vm u = filter f (vm s)).
   Proof. intros; eapply vintersection_spec; eauto. Qed.
 
   Theorem C16_difference :
     forall (s : vset A) (sets : list (vset A)) t, inv A cmp s -> Forall (inv A cmp) sets ->
       exists u t', vdifference A eqb cmp draw s sets t = Ok (u, t') /\ inv A cmp u /\ vk u = vk s /\
         (forall x, In x (vm u) <-> In x (vm s) /\ forall r, In r sets -> ~ In x (vm r)) /\
-        (vk s <> Sorted -> exists f, vm u = filter f (vm s)).
+        (linear (vk s) -> exists f, vm u = filter f (vm s)).
   Proof. intros; eapply vdifference_spec; eauto. Qed.
 
   (** Powerset, for every oracle: 2^n members; each a well-formed set of the operand's kind
@@ -185,17 +188,29 @@ End C16.
 (** Non-vacuity: Go [int] with the natural order satisfies the laws; a concrete history. *)
 Example C16_example :
   let h := [MAdd Z [3;1;2]%Z; MRemove Z [1]%Z; MAdd Z [0;3]%Z] in
-  map (fun k => match vrun_hist Z Z.eqb cmpZ (vnew Z k) h with Ok s => vm s | _ => [] end)
-      [Unordered; Stable; Sorted]
-  = [[3;2;0]; [3;2;0]; [0;2;3]]%Z.
+  map (fun k => match vrun_hist Z Z.eqb cmpsZ (vnew Z k) h with Ok s => vm s | _ => [] end)
+      [Unordered; Stable; Sorted 0; Sorted 1; Sorted 3]
+  = [[3;2;0]; [3;2;0]; [0;2;3]; [3;2;0]; [0;2;3]]%Z.
 Proof. vm_compute. reflexivity. Qed.
 
 Example C16_powerset_partitions_example :
-  let s := mkv Sorted [1;2;3]%Z in
-  (match powerset Z Z.eqb cmpZ draw_id 4 s 0 with Ok (PS, _) => map (@vm Z) (vm PS) | _ => [] end,
-   match partitions Z Z.eqb cmpZ draw_id 4 s 0 with Ok (Ps, _) => map (fun P => map (@vm Z) (vm P)) (vm Ps) | _ => [] end)
+  let s := mkv (Sorted 0) [1;2;3]%Z in
+  (match powerset Z Z.eqb cmpsZ draw_id 4 s 0 with Ok (PS, _) => map (@vm Z) (vm PS) | _ => [] end,
+   match partitions Z Z.eqb cmpsZ draw_id 4 s 0 with Ok (Ps, _) => map (fun P => map (@vm Z) (vm P)) (vm Ps) | _ => [] end)
   = ([[]; [1]; [2]; [1;2]; [3]; [1;3]; [2;3]; [1;2;3]],
      [[[1];[2];[3]]; [[1;2];[3]]; [[2];[1;3]]; [[1];[2;3]]; [[1;2;3]]])%Z.
+Proof. vm_compute. reflexivity. Qed.
+
+(** Non-vacuity of the mixed-comparator case: an ascending and a descending sorted set with the
+    same members are Equal in both directions, each is a subset of the other, and a set of sets
+    keeps only one of them. *)
+Example C16_mixed_comparators_example :
+  let a := mkv (Sorted 0) [1;2;3]%Z in          (* ascending, comparator returns -1/0/1 *)
+  let d := mkv (Sorted 4) [3;2;1]%Z in          (* descending, comparator returns b-a *)
+  (vequal Z Z.eqb cmpsZ a d, vequal Z Z.eqb cmpsZ d a,
+   visSubset Z Z.eqb cmpsZ draw_id a d 0, visSuperset Z Z.eqb cmpsZ draw_id a d 0,
+   match vadd (vset Z) (set_eq Z Z.eqb cmpsZ) nocmp (vnew (vset Z) Unordered) [a; d] with Ok s => length (vm s) | _ => 0%nat end)
+  = (Ok true, Ok true, Ok (true, 0%nat), Ok (true, 0%nat), 1%nat).
 Proof. vm_compute. reflexivity. Qed.
 
 Example C16_bell_values : (map bell [0;1;2;3;4;5;6] = [1;1;2;5;15;52;203])%nat.
